@@ -10,7 +10,7 @@ DRIVER = 'drv_c20'
 HARNESS = 'c20.cpp'
 SOURCES = ['src/containers/boundingbox/AxisAlignedBoundingBox.cpp', 'src/containers/boundingbox/OrientedBoundingBox.cpp',
            'src/pointset/algorithms/PointSetPreconditioner.cpp']
-PROOF_MODULES = ['RomeaProofs.Properties.C20']
+PROOF_MODULES = ['RomeaProofs.Properties.C20', 'RomeaProofs.Bridge.C20', 'RomeaProofs.Bridge.C20Cor']
 TRUSTED = ['C++ harness harness/c20.cpp (builds the Eigen objects from the op tokens, prints members through the public getters)',
            'the order in which the compiled Eigen kernel adds the three terms of R^T (p - c) (model parameter Sum3; chosen per '
            'scalar type in the driver, irrelevant over the reals)']
@@ -604,3 +604,43 @@ def oracle(case, out, stats):
                         bad('container-mean', 'component %d: reported %r, centroid %r' % (i, r[i], float(true)), component=i)
             st('containers_checked')
     return fails
+
+
+# ------------------------------------------------------------------ stage G: the anchored functions themselves, translated (DESIGN.md 2.5b)
+def _box(T, D, suf):
+    return [
+        {'cxx': 'Interval::include', 'record': 'Interval<%s, %d>' % (T, D), 'suffix': suf},
+        {'cxx': 'Interval::inside', 'record': 'Interval<%s, %d>' % (T, D), 'suffix': suf},
+        {'cxx': 'AxisAlignedBoundingBox::AxisAlignedBoundingBox', 'record': 'AxisAlignedBoundingBox<%s, %d>' % (T, D),
+         'sig': 'IntervalType', 'suffix': '_interval' + suf},
+        {'cxx': 'AxisAlignedBoundingBox::toInterval', 'record': 'AxisAlignedBoundingBox<%s, %d>' % (T, D), 'suffix': suf},
+        {'cxx': 'AxisAlignedBoundingBox::isInside', 'record': 'AxisAlignedBoundingBox<%s, %d>' % (T, D), 'suffix': suf},
+        {'cxx': 'OrientedBoundingBox::isInside', 'record': 'OrientedBoundingBox<%s, %d>' % (T, D), 'suffix': suf},
+        {'cxx': 'OrientedBoundingBox::toAxisAlignedBoundingBox', 'record': 'OrientedBoundingBox<%s, %d>' % (T, D), 'suffix': suf},
+    ]
+
+
+BRIDGE_SPEC = {
+    'id': 'C20',
+    'sources': ['src/containers/boundingbox/AxisAlignedBoundingBox.cpp', 'src/containers/boundingbox/OrientedBoundingBox.cpp',
+                'src/pointset/algorithms/PointSetPreconditioner.cpp'],
+    # the member functions of the header-only Interval are instantiated only when used
+    'extra': ['template class romea::core::Interval<double, 1>;', 'template class romea::core::Interval<double, 2>;',
+              'template class romea::core::Interval<double, 3>;', 'template class romea::core::Interval<float, 2>;',
+              'template class romea::core::Interval<float, 3>;'],
+    'imports': ['RomeaModel.Rotation'],       # DoubleConv, should an edit introduce a float <-> double conversion
+    'opens': ['Romea.Rotation'],
+    'functions': _box('double', 2, '_d2') + _box('double', 3, '_d3') + _box('float', 2, '_f2') + _box('float', 3, '_f3') + [
+        {'cxx': 'Interval::include', 'record': 'Interval<double, 1>', 'suffix': '_d1'},
+        {'cxx': 'Interval::inside', 'record': 'Interval<double, 1>', 'suffix': '_d1'},
+        {'cxx': 'PointSetPreconditioner::compute', 'record': 'PointSetPreconditioner<Eigen::Matrix<double, 2, 1, 0>>', 'suffix': '_2d'},
+        {'cxx': 'PointSetPreconditioner::compute', 'record': 'PointSetPreconditioner<Eigen::Matrix<double, 3, 1, 0>>', 'suffix': '_3d'},
+        {'cxx': 'PointSetPreconditioner::compute', 'record': 'PointSetPreconditioner<Eigen::Matrix<float, 2, 1, 0>>', 'suffix': '_2f'},
+        {'cxx': 'PointSetPreconditioner::compute', 'record': 'PointSetPreconditioner<Eigen::Matrix<float, 3, 1, 0>>', 'suffix': '_3f'},
+    ],
+}
+
+
+def regen(ctx):
+    import bridge
+    return bridge.regen_bridge(ctx, BRIDGE_SPEC)
